@@ -20,7 +20,7 @@ RULE = ("hostile inputs - random bytes (several distributions, 0..64 KiB), valid
         "child journals start/end, outcome, CPU time, a logical step count (sys.monitoring PY_START inside pyjelly) and the "
         "growth of the resident high-water mark. Violations: interpreter killed by a signal; a non-Exception BaseException; "
         "CPU > 2 s + 1 ms/byte or steps > 20000 + 400/byte (re-checked alone with a 10x budget before being believed); "
-        "for four input families that can be made any size (one frame of n four-byte rows, n name entries in one frame, n one-triple frames, one integer-typed literal of n digits) the same shape at k*n (k = 4, or 16) may cost at most 2k times the CPU of n (judged only when the large run takes >= 3 s, and only after a second measurement); "
+        "for five input families that can be made any size (one frame of n four-byte rows, n name entries in one frame, n one-row frames, one integer-typed literal of n digits, a quoted triple of n/40 nodes repeated by n rows) the same shape at k*n (k = 4, or 16) may cost at most 2k times the CPU of n (judged only when the large run takes >= 3 s, and only after a second measurement); "
         "resident growth > 32 MiB + 1 KiB per input byte (memory proportional to the ACTUAL input, e.g. 10^5 skipped empty frames, is allowed); a MemoryError/RecursionError raised from pyjelly code. Non-trivial: inputs that "
         "got past framing (>= 1 row decoded) before failing or returning; distinct by (input hash, entry point).")
 ASSUMPTIONS = [
@@ -287,6 +287,19 @@ def combining_marks(k: int, refs: int, where: str) -> bytes:
     return wire.enc_stream(frames, True)
 
 
+def wide_quoted_repeated(nodes: int, rows: int) -> bytes:
+    def tree(k):
+        if k <= 1:
+            return {"s": ("iri", 0, 1), "p": ("iri", 0, 2), "o": ("bnode", "x")}
+        return {"s": ("triple", tree(k // 2)), "p": ("iri", 0, 2), "o": ("triple", tree(k - k // 2 - 1)) if k > 2 else ("bnode", "y")}
+    head = [("options", _opts(generalized_statements=False)), ("name", {"id": 1, "value": "urn:a"}), ("name", {"id": 2, "value": "urn:b"}),
+            ("triple", {"s": ("triple", tree(nodes)), "p": ("iri", 0, 2), "o": ("bnode", "o")})]
+    frames = [{"rows": head}]
+    data = wire.enc_stream(frames, True)
+    one = wire.enc_stream([{"rows": [("triple", {})] * 50}], True)
+    return data + one * (rows // 50)
+
+
 def one_huge_frame(n: int) -> bytes:
     """ONE frame with n rows: options, a name entry, a triple, then n all-repeated triple rows of four bytes each - work
     per row must not grow with the number of rows in the frame."""
@@ -484,6 +497,9 @@ SCALING_FAMILIES = {
         60_000, ["generic:flat", "rdflib:flat"]),
     "many-one-row-frames": (lambda n: valid_tail() + wire.enc_stream([{"rows": [("triple", {})]}], True) * n, 50_000,
                             ["generic:flat", "rdflib:flat", "generic:grouped"]),
+    # one statement whose subject is a WIDE quoted triple (n/40 nodes) followed by n four-byte rows that repeat it: per-row work
+    # must not grow with the size of a term the row merely repeats (options leave generalized_statements unset)
+    "wide-quoted-triple-repeated": (lambda n: wide_quoted_repeated(max(8, n // 40), n), 10_000, ["generic:flat"]),
     # one literal of an integer datatype whose lexical form has n digits (whatever the term library does with it)
     "huge-integer-literal": (lambda n: wire.enc_stream([{"rows": [
         ("options", _opts(max_datatype_table_size=8)), ("name", {"id": 0, "value": "urn:x"}),
